@@ -492,6 +492,12 @@ def oracle(case, obs, check_charge=False, cls_rel=None, with_sulfur=None):
                 bad.append(({"site": "Biomolecule.update_ss_bridges/CYS.set_state", "field": "ffname", "condition": "isolated"}, f"unit {i}: free CYS named ..{ff}, CYX patch {pt}"))
             if check_charge and q is not None and (has_sg(u) or with_sulfur is not None) and q not in amber_sg_charges()[1]:
                 bad.append(({"site": "Biomolecule.apply_force_field", "field": "SG charge", "condition": "isolated"}, f"unit {i}: SG charge {q} is not a CYS charge"))
+        elif c[0] == "isolated" and u["name"] == "CYM" and u["variant"] != "stub":
+            # exclusivity: a thiolate (named CYM in the input) with no sulfur in range is not a bridged cysteine
+            if b or p is not None:
+                bad.append(({"site": site, "field": "ss_bonded", "condition": "isolated-thiolate"}, f"unit {i}: isolated CYM flagged (partner {p})"))
+            if ff == "CYX" or pt:
+                bad.append(({"site": "Biomolecule.update_ss_bridges/CYS.set_state", "field": "ffname", "condition": "isolated-thiolate"}, f"unit {i}: isolated thiolate CYM gets bridged-cysteine name ..{ff} (CYX patch {pt})"))
         # exclusivity in the wide sense: whoever is flagged points at a sulfur within the limit
         if p is not None:
             if p < 0 or not (has_sg(u) if with_sulfur is None else i in with_sulfur) or (i, p) not in rel or rel[(i, p)] is False:
